@@ -159,13 +159,18 @@ VP_HARNESS(h_guards)
   switch (which) {
   case 0: r = hwloc_topology_restrict(t, set, fl); break;
   case 1: p = hwloc_topology_alloc_group_object(t); break;
-  case 2: { static struct hwloc_obj g; g.type = HWLOC_OBJ_GROUP; p = hwloc_topology_insert_group_object(t, &g); VP_ASSUME(0 || 1); break; }
+  case 2: { /* a Group built by hand (alloc_group is refused on an adopted topology); the refusing call frees it */
+            hwloc_obj_t g = malloc(sizeof *g); VP_NONNULL(g); static const struct hwloc_obj oz; *g = oz; g->type = HWLOC_OBJ_GROUP;
+            g->attr = malloc(sizeof *g->attr); VP_NONNULL(g->attr); static const union hwloc_obj_attr_u az; *g->attr = az;
+            p = hwloc_topology_insert_group_object(t, g); break; }
   case 3: p = hwloc_topology_insert_misc_object(t, S.pu[0], "m"); break;
   case 4: p = hwloc_distances_add_create(t, "n", fl, 0); break;
   case 5: r = hwloc_distances_remove(t); break;
   case 6: r = hwloc_distances_remove_by_depth(t, (int) q); break;
   case 7: r = hwloc_topology_diff_apply(t, NULL, fl); break;
-  default: { static struct hwloc_obj g2; g2.type = HWLOC_OBJ_GROUP; r = hwloc_topology_free_group_object(t, &g2); break; }
+  default: { hwloc_obj_t g2 = malloc(sizeof *g2); VP_NONNULL(g2); static const struct hwloc_obj oz2; *g2 = oz2; g2->type = HWLOC_OBJ_GROUP;
+             g2->attr = malloc(sizeof *g2->attr); VP_NONNULL(g2->attr); static const union hwloc_obj_attr_u az2; *g2->attr = az2;
+             r = hwloc_topology_free_group_object(t, g2); break; }
   }
   if (which == 1 || which == 2 || which == 3 || which == 4) VP_CHECK(p == NULL && errno == EPERM, "adopted topology: object/distances creation is refused with EPERM");
   else VP_CHECK(r == -1 && errno == EPERM, "adopted topology: restrict/remove/apply/free_group are refused with EPERM");
